@@ -255,7 +255,7 @@ func isSymlinkToDir(path string, de os.DirEntry) bool {
 func trimPath(path string) string {
 	bytes := stringBytes(path)
 
-	for len(bytes) > 1 && bytes[0] == '.' && (bytes[1] == '/' || bytes[1] == '\\') {
+	for len(bytes) > 1 && bytes[0] == '.' && (bytes[1] == '/' || bytes[1] == os.PathSeparator) {
 		bytes = bytes[2:]
 	}
 
